@@ -230,7 +230,7 @@ Proof.
       eapply post_weaken; [|apply call_builtin_ok; eauto using good_mwf]. intros r Hr. eapply Qe_trans; eauto. }
     destruct (lookup_var x (m_scopes m)) as [fv|] eqn:El; [cbn [bind]|unfold rt_err, fail_here, unexpected_at; destruct (stmt_at code (m_pc m)); exact I].
     pose proof (lookup_ok code _ _ _ _ (w_sc code m Hm) El) as Hfv.
-    destruct fv; try exact I. simpl in Hfv.
+    destruct fv; try exact I. simpl in Hfv. destruct Hfv as [Hfv _].
     eapply post_bind; [apply bind_args_ok; eauto; constructor|]. intros [env m1] [G1 Henv]. cbn [fst snd] in *.
     destruct (fun_ok_stmt _ Hfv) as [s0 Hs0]. rewrite Hs0.
     destruct s0; try exact I.
@@ -439,7 +439,7 @@ Proof.
     destruct (stmt_at code (S (m_pc m))) as [s1|] eqn:Hs1.
     2:{ unfold stmt_at in Hs1. apply nth_error_None in Hs1. lia. }
     destruct s1; try exact I. destruct e; try exact I. destruct e; try exact I.
-    match goal with |- context [match ?nm with Some _ => _ | None => _ end] => destruct nm as [params|]; [|exact I] end.
+    match goal with |- context [match ?nm with Some _ => _ | None => _ end] => destruct nm as [params|] eqn:Enm; [|exact I] end.
     destruct (scopes_cons m Hm) as (s0 & r & Esc). rewrite Esc. cbn [declare bind].
     destruct (skip_block_from code m (S (S (m_pc m)))) as [pc2| | |] eqn:Esk; try exact I.
     2:{ unfold skip_block_from in Esk. exfalso. revert Esk. generalize (S (length code - S (S (m_pc m)))) as fu. intros fu.
@@ -456,7 +456,8 @@ Proof.
     assert (Wm' : mwf m').
     { destruct Hm as [A B C D E]. constructor; cbn [m' set_scopes m_pc m_scopes m_heap m_loops]; auto.
       - simpl. lia.
-      - rewrite Esc in C. inversion C; subst. constructor; auto. apply alist_set_ok; auto. }
+      - rewrite Esc in C. inversion C; subst. constructor; auto. apply alist_set_ok; auto.
+        split; [exact Hfun|]. exists p, x, p2, args, p1, p0. split; [exact Hs|split; [exact Hs1|exact Enm]]. }
     assert (Q : Qi m' (set_pc m' (S pc2))).
     { eapply jump_Qi with (s := FFuncDef p); [exact Wm'|exact Hs|plain_tac|reflexivity|cbn [m' set_scopes m_pc]; lia|exact Hend|cbn [m' set_scopes m_pc]; lia|].
       cbn [m' set_scopes m_pc]. intros k Hk1 Hk2. destruct (Nat.eq_dec k (m_pc m)) as [->|]; [lia|]. destruct (Nat.eq_dec k (S (m_pc m))) as [->|]; [lia|].
